@@ -134,9 +134,10 @@ def renderXmlWith (esc : Escapers) (env : Env) (pr : TokenParams) (s : FStack) (
     else .ok (s.pop node.hasNsDecls, ⟨false, litEmptyEndTag⟩)
   | .pfx p ns =>
     if ns == Env.xmlNamespace then .ok (s, ⟨false, litXmlPrefix⟩)
+    -- the namespace URI is escaped as an attribute value (`serialize_attribute`)
     else if p == Env.emptyPrefix then
-      .ok (s, ⟨true, fmt fmtXmlnsDefault [env.namespaceStr ns]⟩)
-    else .ok (s, ⟨true, fmt fmtXmlnsPrefix [env.prefixStr p, env.namespaceStr ns]⟩)
+      .ok (s, ⟨true, fmt fmtXmlnsDefault [esc.attr (env.namespaceStr ns)]⟩)
+    else .ok (s, ⟨true, fmt fmtXmlnsPrefix [env.prefixStr p, esc.attr (env.namespaceStr ns)]⟩)
   | .attribute name value =>
     match s.attributeFullname env name with
     | .ok full => .ok (s, ⟨true, fmt fmtAttribute [full, esc.attr value]⟩)
